@@ -40,6 +40,11 @@ class ResponseModel:
         hw = [k for k, g in facts.local_fns.items() if g.file == self.file and g.rec["def_kind"] in ("Fn", "AssocFn") and "{closure" not in k
               and g.rec.get("impl_self_adt") != RESP and g.rec.get("impl_trait") is None
               and g.locals[0]["ty"] == "std::result::Result<(), std::io::Error>" and covers(g, "common::StatusCode") and covers(g, "common::Header")]
+        if len(hw) > 1:
+            # a wrapper that hands its arguments on to the head writer proper (a method of a printing context): the innermost one is it
+            inner = [k for k in hw if not any(call_name(t) in hw and call_name(t) != k for bb, t in facts.fns[k].calls())]
+            if len(inner) == 1:
+                hw = inner
         if len(hw) != 1:
             raise CheckerError("response rules: head writer not found (%s)" % hw)
         self.head_writer = facts.fn(hw[0])
